@@ -1605,6 +1605,7 @@ for _pid in ["C01", "C02", "C03", "C04", "C05", "C06", "C07", "C08", "C09", "C10
     ok(_pid, "append loops written as list comprehensions", _generic.loops_to_comprehensions)
     ok(_pid, "statement-level list comprehensions written as append loops",
        _generic.comprehensions_to_loops)
+    ok(_pid, "integer counters updated with x = x + 1 instead of x += 1", _generic.counter_updates)
 
 ok("C02", "selector locals renamed in Tempo._influence", _multi(
     _sub(TE, "tmp_deg_positions", "positions_pair", count=100)))
